@@ -675,7 +675,11 @@ func (l *List) CombineN(sta funcGen.Stack[Value]) (*List, error) {
 		}
 		return NewListFromIterable(func(st funcGen.Stack[Value]) iterator.Producer[Value] {
 			return iterator.CombineN[Value, Value](l.iterable(st), int(n), func(i0 int, i []Value) (Value, error) {
-				st.Push(NewList(i...))
+				// i is the ring buffer of the iterator (overwritten for the next group), its oldest
+				// item is at i0: the function gets its own copy in list order
+				w := make([]Value, 0, len(i))
+				w = append(append(w, i[i0:]...), i[:i0]...)
+				st.Push(NewList(w...))
 				return f.Func(st.CreateFrame(1), nil)
 			})
 		}), nil
